@@ -182,20 +182,27 @@ def run_manager(case):
         osu = HookedOSUtils(w)
         mgr = TransferManager(client, cfg, osutil=osu)
         futs = []
-        for i, size in enumerate(case['sizes']):
+        # 'seq': transfers of mixed kinds on ONE manager, each finished before the next starts - the plan of a transfer must not
+        # depend on what the manager did before
+        items = case.get('seq') or [(case['kind'], s) for s in case['sizes']]
+        for i, (kind, size) in enumerate(items):
             key = f'k{i}'
-            kind = case['kind']
             if kind == 'upload':
                 path = os.path.join(tmp, f'src{i}')
                 osu.virtual_sizes[path] = size
-                futs.append((size, key, mgr.upload(path, 'bkt', key)))
+                futs.append((size, key, mgr.upload(path, 'bkt', key), kind))
             elif kind == 'copy':
                 s3.api_sizes[('srcbkt', key)] = size
-                futs.append((size, key, mgr.copy({'Bucket': 'srcbkt', 'Key': key}, 'bkt', key)))
+                futs.append((size, key, mgr.copy({'Bucket': 'srcbkt', 'Key': key}, 'bkt', key), kind))
             else:
                 s3.api_sizes[('bkt', key)] = size
-                futs.append((size, key, mgr.download('bkt', key, os.path.join(tmp, f'dst{i}'))))
-        for size, key, f in futs:
+                futs.append((size, key, mgr.download('bkt', key, os.path.join(tmp, f'dst{i}')), kind))
+            if case.get('seq'):
+                try:
+                    futs[-1][2].result()
+                except Exception:  # noqa - judged below
+                    pass
+        for size, key, f, kind in futs:
             try:
                 f.result()
                 err = None
@@ -211,14 +218,19 @@ def run_manager(case):
             stats['transfers'] += 1
             stats['requests'] += len(calls)
             if err is not None:
-                viol.append(V(f'manager {case["kind"]} size={size} threshold={T} chunksize={C}: failed with {err!r}', sym='failed',
-                              kind=case['kind'], front_end='manager', scaled=bool(case.get('scaled'))))
+                viol.append(V(f'manager {kind} size={size} threshold={T} chunksize={C}: failed with {err!r}', sym='failed',
+                              kind=kind, front_end='manager', scaled=bool(case.get('scaled'))))
                 continue
-            v, n = check_plan(case['kind'], 'manager', size, T, C, calls, bool(case.get('scaled')))
+            v, n = check_plan(kind, 'manager', size, T, C, calls, bool(case.get('scaled')))
+            if case.get('seq'):
+                for vv in v:
+                    vv['what'] += f' (transfer {key[1:]} of the sequence {[(k, sz) for k, sz in items][:6]} on one manager)'
+                    vv['mech']['after_history'] = True
+                stats['history_transfers'] = stats.get('history_transfers', 0) + 1
             viol += v[:2]
             if n >= 2:
                 stats['multipart_plans'] += 1
-                keys.add((case['kind'], size, T, C))
+                keys.add((kind, size, T, C))
             stats['max_parts'] = max(stats['max_parts'], n)
         mgr.shutdown()
     finally:
@@ -386,6 +398,20 @@ def gen_cases(tier, seed):
                 for fe in ('legacy', 'procpool'):
                     d2 = [s for s in dl if math.ceil(s / C) <= 300 and (fe != 'procpool' or s > 0)]
                     cases.append({'type': 'fe', 'fe': fe, 'T': T, 'C': C, 'sizes': d2 if not quick else d2[::3]})
+    # history: mixed kinds one after the other on one manager, starting with transfers whose part size has to be adjusted
+    for rep in range(6 if quick else 40):
+        C = rng.choice([1, 2, 3])
+        T = rng.choice([C, 2 * C, 5])
+        first = [('copy', MAX_N * C + rng.choice([1, C, 2 * C + 1])), ('upload', MAX_N * C + 1)]
+        rng.shuffle(first)
+        rest = [(rng.choice(['download', 'upload', 'copy']), rng.choice([T - 1, T, 2 * C + 1, 6 * C + 1, 9 * C, 31])) for _ in range(6)]
+        cases.append({'type': 'mgr', 'T': T, 'C': C, 'scaled': True, 'kind': 'mixed', 'sizes': [], 'seq': first[:rng.choice([1, 2])] + rest})
+    for (T, C) in ((MB, MB), (8 * MB, 1), (8 * MB, 6 * GB), (8 * MB, 8 * MB)):
+        first = [('copy', rng.choice([11 * MB + 1, 16 * MB])), ('upload', 12 * MB)] if C != 8 * MB else [('copy', MAX_N * C + 1)]
+        if C == 6 * GB:
+            first = [('copy', 13 * GB)]
+        rest = [('download', 3 * MB + 1), ('upload', 17 * MB), ('copy', 24 * MB + 5)] + ([('download', 20 * MB)] if C >= MB else [])
+        cases.append({'type': 'mgr', 'T': T, 'C': C, 'kind': 'mixed', 'sizes': [], 'seq': first + rest})
     # float-rounding edges: ceil(size / float(part)) for large k
     for C in (5 * MB, 8 * MB, 7 * MB + 1):
         for k in (9999, 10000):
@@ -413,5 +439,5 @@ def run_case(case):
     stats['plans_checked'] = stats['transfers']
     key = hashlib.sha1(repr(sorted(keys)).encode()).hexdigest()[:16] if keys else None
     return {'verdict': 'violated' if viol else 'held', 'key': key, 'violations': viol[:5],
-            'stats': dict(stats, distinct_plans=len(keys)), 'summary': {k: v for k, v in case.items() if k != 'sizes'} | {'nsizes': len(case['sizes']), 'max_parts': stats['max_parts']},
+            'stats': dict(stats, distinct_plans=len(keys)), 'summary': {k: v for k, v in case.items() if k not in ('sizes', 'seq')} | {'nsizes': len(case['sizes']), 'max_parts': stats['max_parts']},
             'fatal': fatal}
